@@ -70,7 +70,8 @@ theorem unit_roundtrip (v u : ℝ) (hu : u ≠ 0) : v * u / u = v := Cfg.unit_ro
 
 /-- every numeric field of the configuration of a setup is the physical value divided by the
 field's unit (°, µm, nm, °C offset, mW, pm/V) and rounded to 4 decimals; the idler and both waist
-positions are explicit, the external angles are dropped, the poling period is the stored magnitude
+positions are explicit, the external angles are dropped, a beam azimuth that rounds up to 360 is
+written as 0 (`wrap360`), the poling period is the stored magnitude
 (the sign is re-derived on the way back) and the Gaussian apodization width is a rounded length -/
 theorem asConfig_fields (s : Setup ℝ) :
     (asConfig s).crystal.thetaDeg = .param (sigfigs (s.crystal.theta / deg)) ∧
@@ -83,13 +84,13 @@ theorem asConfig_fields (s : Setup ℝ) :
     (asConfig s).pump.averagePowerMw = sigfigs (s.pumpAveragePower / 1.0) ∧
     (asConfig s).pump.spectrumThreshold = some s.pumpSpectrumThreshold ∧
     (asConfig s).signal = { wavelengthNm := sigfigs (s.signal.wavelength / nano),
-                            phiDeg := sigfigs (s.signal.phi / deg),
+                            phiDeg := wrap360 (sigfigs (s.signal.phi / deg)),
                             thetaDeg := some (sigfigs (s.signal.theta / deg)),
                             thetaExternalDeg := none,
                             waistUm := sigfigs (s.signal.waistX / micro),
                             waistPositionUm := .param (sigfigs (s.signalWaistPos / micro)) } ∧
     (asConfig s).idler = .param { wavelengthNm := sigfigs (s.idler.wavelength / nano),
-                                  phiDeg := sigfigs (s.idler.phi / deg),
+                                  phiDeg := wrap360 (sigfigs (s.idler.phi / deg)),
                                   thetaDeg := some (sigfigs (s.idler.theta / deg)),
                                   thetaExternalDeg := none,
                                   waistUm := sigfigs (s.idler.waistX / micro),
@@ -98,8 +99,10 @@ theorem asConfig_fields (s : Setup ℝ) :
     (∀ p neg a, s.pp = .on p neg a →
       (asConfig s).poling = .config (.param (sigfigs (p / micro))) (Apod.toCfg a)) ∧
     (s.pp = .off → (asConfig s).poling = .off) ∧
-    (∀ f, Apod.toCfg (.gaussian f : Apod ℝ) = .gaussian (sigfigs (f / micro))) := by
-  refine ⟨rfl, rfl, rfl, rfl, rfl, rfl, rfl, rfl, rfl, rfl, rfl, rfl, ?_, ?_, fun _ => rfl⟩
+    (∀ f, Apod.toCfg (.gaussian f : Apod ℝ) = .gaussian (sigfigs (f / micro))) ∧
+    ((∀ x : ℝ, 0 ≤ x → x < 360 → wrap360 x = x) ∧ wrap360 (360 : ℝ) = 0) := by
+  refine ⟨rfl, rfl, rfl, rfl, rfl, rfl, rfl, rfl, rfl, rfl, rfl, rfl, ?_, ?_, fun _ => rfl,
+    fun x h0 h1 => wrap360_of_mem h0 h1, wrap360_360⟩
   · intro p neg a h; simp [asConfig, asConfigG, h, Poling.toCfg]
   · intro h; simp [asConfig, asConfigG, h, Poling.toCfg]
 
